@@ -42,9 +42,9 @@ func isSkipLabel(l string) bool {
 	return strings.Contains(l, "global:ngo/verifier/trustpolicy.LevelSkip") || strings.Contains(l, `const:"skip"`)
 }
 
-func skipEdges(fi *FnInfo) map[edgeKey]bool {
-	return fi.edgesMatching(func(l string, _ *ssa.If, _ bool) bool { return isSkipLabel(l) })
-}
+// skipEdges: the level == skip test itself, or the sentinel (a nil payload, a `skipped` flag) through which a helper that
+// made the test tells its caller so (extra_c01.go, sentinelSkipEdges).
+func skipEdges(fi *FnInfo) map[edgeKey]bool { return c01SkipEdges(fi, 0) }
 
 // nonSkipSummary summarises fn with the skip edges removed.
 func nonSkipSummary(w *World, fn *ssa.Function) (*Summary, int) {
@@ -160,7 +160,7 @@ func c01Entry(c *Ctx, fn *ssa.Function, kind string) {
 	// the outcome whose content is decoded is the one handed to the signature processing and returned
 	retOutcomeOK := true
 	for _, ex := range sum.Exits {
-		if len(ex.Ret.Results) < 1 || desc(ex.Ret.Results[0]) != outcomeDesc {
+		if len(ex.Ret.Results) < 1 || c01Engine(w).canon(fn)(desc(ex.Ret.Results[0])) != outcomeDesc {
 			retOutcomeOK = false
 		}
 		okProc := false
@@ -297,7 +297,7 @@ func c01BlobBinding(c *Ctx, fn *ssa.Function, fi *FnInfo, sum *Summary, ta, outc
 	}
 	rule := "must-check (disjunctive): every non-skip success exit passes desc.MediaType == signed MediaType, bypassable only by desc.MediaType == \"\""
 	nFact := 0
-	holds, path := c01Engine(w).gateHolds(fn, Mode{Kind: mErr}, c01Frame{}, skipEdges(fi), fact, 0, &nFact)
+	holds, path := c01Engine(w).gateHolds(fn, Mode{Kind: mErr}, c01Frame{canon: c01Engine(w).canon(fn)}, skipEdges(fi), fact, 0, &nFact)
 	c.Evals += 2
 	switch {
 	case nMT == 0:
